@@ -12,12 +12,8 @@ import (
 // ---- the concurrent map/reduce paths: all goroutines are interpreted, the
 // peer answers each request at once (reply orders are C13's subject) ----
 
-func vLC() int {
-	if vThorough() {
-		return 3
-	}
-	return 2
-}
+// two chunks (three did not finish within the thorough budget: >200k paths per configuration)
+func vLC() int { return 2 }
 
 func vh_C01_readat_conc() {
 	p := 1
